@@ -49,6 +49,11 @@ func EndBlocker(ctx sdk.Context, k keeper.Keeper) {
 			}
 		}
 
+		// a paused context that has used up its total is finished as well
+		if requestContext.State == types.PAUSED && requestContext.RepeatedTotal > 0 && int64(requestContext.BatchCounter) >= requestContext.RepeatedTotal {
+			k.CompleteServiceContext(ctx, requestContext, requestContextID)
+		}
+
 		k.CleanBatch(ctx, requestContext, requestContextID)
 	}
 
